@@ -19,6 +19,8 @@ type Sched struct {
 	done    map[string]bool
 	wake    chan struct{}
 	History []string // released calls in order
+	Branch  []int    // number of actors that could have been chosen at each step
+	Chosen  []int    // index (among the sorted contending actors) chosen at each step
 	free    bool     // when set, calls are not parked anymore (drain mode)
 }
 
@@ -158,6 +160,8 @@ func (s *Sched) Run(choices []int, stall time.Duration) error {
 			ch = -ch
 		}
 		a := actors[ch%len(actors)]
+		s.Branch = append(s.Branch, len(actors))
+		s.Chosen = append(s.Chosen, ch%len(actors))
 		idx := -1
 		for i, p := range s.parked {
 			if p.actor == a {
